@@ -28,6 +28,7 @@ MARK = "<#J-SEP#>"
 RENDERINGS = ("short", "short-precise", "short-iso", "short-iso-precise", "short-full", "short-monotonic", "short-unix",
               "verbose", "export", "cat")
 _DUMP = {}
+FORCE_WINDOW = False      # set by C03 when it runs this check for its own purpose (every case gets a window)
 
 
 def parse_export(buf):
@@ -193,6 +194,8 @@ def run_case(seed, i, tier):
     opts = ["--color", "never", "--tz-offset=" + tzo, "--separator", MARK, "--journal-output", rendering]
     a = b = None
     form = rng.choice(("none", "both", "both", "only_a", "only_b", "a_eq_b"))
+    if FORCE_WINDOW and form == "none":
+        form = "both"
     idxs = list(range(len(ents)))
     if form != "none":
         ts = sorted(set(e["rt"] * 1000 for e in ents)) or [1_600_000_000_000_000_000]
